@@ -292,10 +292,19 @@ Qed.
 Lemma run_for_same t locs s adds : same_tasks s (fst (fst (run_for s t locs adds))).
 Proof. apply run_for_same', same_tasks_refl. Qed.
 
-Lemma run_while_same t hint : forall fuel s adds, same_tasks s (fst (run_while fuel s t hint adds)).
+Lemma same_tasks_pick_up s t : same_tasks s (pick_up s t).
 Proof.
-  induction fuel as [|f IH]; intros s adds; cbn [run_while]; [apply same_tasks_refl|].
-  destruct (retrier_pending s t) as [|x p]; [apply same_tasks_refl|].
+  unfold pick_up. destruct (aget (f_mgr s) t) as [r|] eqn:E; [|apply same_tasks_refl]. split; [reflexivity|].
+  intros k. rewrite rstat_put. destruct (N.eqb k t) eqn:Ek; [|reflexivity]. apply N.eqb_eq in Ek. subst. unfold rstat. rewrite E. reflexivity.
+Qed.
+
+Lemma run_while_same t hint : forall fuel picked s adds, same_tasks s (fst (run_while fuel picked s t hint adds)).
+Proof.
+  induction fuel as [|f IH]; intros picked s adds; cbn [run_while]; [apply same_tasks_refl|].
+  destruct (retrier_pending s t) as [|x p].
+  { destruct picked; [apply same_tasks_refl|]. destruct (poisoned s); [apply same_tasks_refl|].
+    destruct (retrier_pending (pick_up s t) t); cbn [fst]; [apply same_tasks_pick_up|].
+    eapply same_tasks_trans; [apply same_tasks_pick_up|apply IH]. }
   pose proof (run_for_same t (reorder hint (x :: p)) s adds) as H.
   destruct (run_for s t (reorder hint (x :: p)) adds) as [[s1 adds1] [r|]]; cbn [fst] in *; [exact H|].
   eapply same_tasks_trans; [exact H|apply IH].
@@ -2212,17 +2221,65 @@ Proof.
     destruct (wt_remove_pending_appointment c2 t l0) as [c3 r3]. destruct (lift_site r3); [inversion E1; split; discriminate|]. eapply IHl, E1.
 Qed.
 
-Lemma FInv_run_while t hint : forall fuel s adds s' res,
-  RunPre s t -> run_while fuel s t hint adds = (s', res) ->
+(* Retrier::pick_up_pending (fix D7) *)
+Lemma f_c_pick_up s t : f_c (pick_up s t) = f_c s.
+Proof. unfold pick_up. destruct (aget (f_mgr s) t); reflexivity. Qed.
+Lemma f_log_pick_up s t : f_log (pick_up s t) = f_log s.
+Proof. unfold pick_up. destruct (aget (f_mgr s) t); reflexivity. Qed.
+Lemma f_dbs_pick_up s t : f_dbs (pick_up s t) = f_dbs s.
+Proof. unfold pick_up. destruct (aget (f_mgr s) t); reflexivity. Qed.
+Lemma f_due_pick_up s t : f_due (pick_up s t) = f_due s.
+Proof. unfold pick_up. destruct (aget (f_mgr s) t); reflexivity. Qed.
+
+Lemma FInv_pick_up s t : FInv s -> FInv (pick_up s t).
+Proof.
+  intros HF. unfold pick_up. destruct (aget (f_mgr s) t) as [r|] eqn:Er; [|exact HF].
+  pose proof HF as [HI [HD [HV HT]]].
+  apply FInv_put; [exact HF| | |].
+  - intros Hp Hs. cbn [r_status r_pending] in *. destruct (HV Hp) as [_ [_ [_ V5]]]. apply V5. unfold rstat. rewrite Er. cbn. congruence.
+  - intros Hp. cbn [r_pending]. apply NoDup_set_union. destruct (HV Hp) as [_ [_ [V4 _]]]. eapply V4, Er.
+  - eapply TaskInv_put_same_status; [exact HT|exact Er|reflexivity].
+Qed.
+
+Lemma RunPre_pick_up s t : RunPre s t -> RunPre (pick_up s t) t.
+Proof.
+  intros [HF [Hp [Hk Hrun]]]. split; [apply FInv_pick_up, HF|]. unfold poisoned. rewrite f_c_pick_up.
+  split; [exact Hp|]. split; [exact Hk|]. pose proof (same_tasks_pick_up s t) as [_ Hs]. rewrite Hs. exact Hrun.
+Qed.
+
+(* after the pick-up the retrier's set holds every pending row of the (known) tower *)
+Lemma pick_up_covers s t l :
+  RunPre s t -> Prow (c_db (f_c s)) t l -> In l (retrier_pending (pick_up s t) t).
+Proof.
+  intros [HF [Hp [Hk Hrun]]] HP. unfold rstat in Hrun. destruct (aget (f_mgr s) t) as [r|] eqn:Er; [|discriminate].
+  unfold pick_up. rewrite Er, retrier_pending_put, N.eqb_refl. cbn [r_pending]. apply In_set_union. right.
+  pose proof HF as [[HD HM] _]. unfold knownc, amem in Hk. unfold tower_pending. destruct (aget (c_towers (f_c s)) t) as [su|] eqn:Et; [|discriminate].
+  destruct (proj1 (HM Hp) t su Et) as [tr [rr [_ [_ [_ [_ [_ [_ [C5 _]]]]]]]]].
+  apply C5, In_pending_locators. destruct HP as [row [A [B C]]]. exists row. auto.
+Qed.
+
+Lemma FInv_run_while t hint : forall fuel picked s adds s' res,
+  RunPre s t -> run_while fuel picked s t hint adds = (s', res) ->
   FInv s' /\ (match res with RunAbort _ => False | _ => True end -> poisoned s' = false /\ (forall k, knownc (f_c s') k <-> knownc (f_c s) k)) /\
   (res = RunOk -> retrier_pending s' t = []) /\ keeps (c_db (f_c s)) (c_db (f_c s')) /\
   (forall k x, Prow (c_db (f_c s')) k x -> Prow (c_db (f_c s)) k x) /\
-  (res = RunOk -> forall l, In l (retrier_pending s t) -> ~ Prow (c_db (f_c s')) t l).
+  (res = RunOk -> forall l, In l (retrier_pending s t) \/ picked = false -> ~ Prow (c_db (f_c s')) t l).
 Proof.
-  induction fuel as [|f IH]; intros s adds s' res Hpre E; cbn [run_while] in E.
+  induction fuel as [|f IH]; intros picked s adds s' res Hpre E; cbn [run_while] in E.
   { inversion E. subst. destruct Hpre as [HF [Hp _]]. split; [exact HF|]. split; [intros _; split; [exact Hp|tauto]|split; [discriminate|split; [apply keeps_refl|split; [auto|discriminate]]]]. }
   destruct (retrier_pending s t) as [|x p] eqn:Ep.
-  { inversion E. subst. destruct Hpre as [HF [Hp _]]. split; [exact HF|]. split; [intros _; split; [exact Hp|tauto]|split; [intros _; exact Ep|split; [apply keeps_refl|split; [auto|intros _ l []]]]]. }
+  { destruct picked.
+    { inversion E. subst. destruct Hpre as [HF [Hp _]]. split; [exact HF|]. split; [intros _; split; [exact Hp|tauto]|split; [intros _; exact Ep|split; [apply keeps_refl|split; [auto|]]]].
+      intros _ l [[]|H]; discriminate H. }
+    pose proof Hpre as [HF [Hp _]]. rewrite Hp in E.
+    pose proof (RunPre_pick_up s t Hpre) as Hpre1. set (s1 := pick_up s t) in *.
+    assert (Ec : f_c s1 = f_c s) by apply f_c_pick_up.
+    destruct (retrier_pending s1 t) as [|y q] eqn:Ep1.
+    - inversion E. subst. split; [apply Hpre1|]. split; [intros _; split; [apply Hpre1|rewrite Ec; tauto]|]. rewrite Ec. split; [intros _; exact Ep1|]. split; [apply keeps_refl|]. split; [auto|].
+      intros _ l _ HP. pose proof (pick_up_covers s t l Hpre HP) as Hin. fold s1 in Hin. rewrite Ep1 in Hin. contradiction.
+    - destruct (IH true s1 adds s' res Hpre1 E) as [A' [B' [C' [K' [PA' PN']]]]]. rewrite Ec in *.
+      split; [exact A'|]. split; [exact B'|]. split; [exact C'|]. split; [exact K'|]. split; [exact PA'|].
+      intros Hr l _ HP. apply (PN' Hr l); [|exact HP]. left. apply (pick_up_covers s t l Hpre). apply PA', HP. }
   destruct (run_for s t (reorder hint (x :: p)) adds) as [[s1 adds1] r1] eqn:E1.
   pose proof Hpre as [HF [Hp [Hk Hrun]]].
   assert (Hnd : NoDup (x :: p)).
@@ -2237,10 +2294,12 @@ Proof.
     assert (Hpre1 : RunPre s1 t).
     { split; [exact A|]. split; [exact Hp1|]. split; [apply Hk1, Hk|].
       pose proof (run_for_same t (reorder hint (x :: p)) s adds) as [_ Hs]. rewrite E1 in Hs. cbn [fst] in Hs. rewrite Hs. exact Hrun. }
-    destruct (IH s1 adds1 s' res Hpre1 E) as [A' [B' [C' [K' [PA' PN']]]]]. split; [exact A'|]. split; [|split; [exact C'|split; [eapply keeps_trans; eassumption|split]]].
+    destruct (IH picked s1 adds1 s' res Hpre1 E) as [A' [B' [C' [K' [PA' PN']]]]]. split; [exact A'|]. split; [|split; [exact C'|split; [eapply keeps_trans; eassumption|split]]].
     + intros Hna. destruct (B' Hna) as [X Y]. split; [exact X|]. intros k. rewrite Y. apply Hk1.
     + intros k y Hy. apply PA, PA', Hy.
-    + intros _ l Hl Hrow. apply PA' in Hrow. apply (PN eq_refl l); [|exact Hrow]. apply In_reorder. exact Hl.
+    + intros Hr l [Hl|Hpk] Hrow.
+      * apply PA' in Hrow. apply (PN eq_refl l); [|exact Hrow]. apply In_reorder. exact Hl.
+      * apply (PN' Hr l); [right; exact Hpk|exact Hrow].
 Qed.
 
 (* a renewal of the subscription of a KNOWN tower *)
@@ -2280,7 +2339,7 @@ Lemma FInv_run_attempt s t a s' res :
   FInv s' /\ (match res with RunAbort _ => False | _ => True end -> poisoned s' = false) /\
   (res = RunOk -> retrier_pending s' t = [] /\ knownc (f_c s') t) /\ keeps (c_db (f_c s)) (c_db (f_c s')) /\
   (forall k x, Prow (c_db (f_c s')) k x -> Prow (c_db (f_c s)) k x) /\
-  (res = RunOk -> forall l, In l (retrier_pending s t) -> ~ Prow (c_db (f_c s')) t l).
+  (res = RunOk -> forall l, ~ Prow (c_db (f_c s')) t l).
 Proof.
   intros HF Hrun E. unfold run_attempt in E. destruct (poisoned s) eqn:Hp.
   { inversion E. subst. split; [exact HF|]. split; [intros []|split; [discriminate|split; [apply keeps_refl|split; [auto|discriminate]]]]. }
@@ -2290,14 +2349,14 @@ Proof.
   destruct (is_misbehaving (su_status su)).
   { inversion E. subst. split; [exact HF|]. split; [intros _; exact Hp|split; [discriminate|split; [apply keeps_refl|split; [auto|discriminate]]]]. }
   assert (Hgo : forall s0, FInv s0 -> poisoned s0 = false -> knownc (f_c s0) t -> rstat s0 t = Some RRunning ->
-            run_while (run_fuel s0 t) s0 t (at_order a) (at_adds a) = (s', res) ->
+            run_while (run_fuel s0 t) false s0 t (at_order a) (at_adds a) = (s', res) ->
             FInv s' /\ (match res with RunAbort _ => False | _ => True end -> poisoned s' = false) /\
             (res = RunOk -> retrier_pending s' t = [] /\ knownc (f_c s') t) /\ keeps (c_db (f_c s0)) (c_db (f_c s')) /\
             (forall k x, Prow (c_db (f_c s')) k x -> Prow (c_db (f_c s0)) k x) /\
-            (res = RunOk -> forall l, In l (retrier_pending s0 t) -> ~ Prow (c_db (f_c s')) t l)).
+            (res = RunOk -> forall l, ~ Prow (c_db (f_c s')) t l)).
   { intros s0 H0 Hp0 Hk0 Hr0 E0.
-    destruct (FInv_run_while t (at_order a) _ s0 (at_adds a) s' res (conj H0 (conj Hp0 (conj Hk0 Hr0))) E0) as [A [B [C [K [PA PN]]]]].
-    split; [exact A|]. split; [intros Hna; apply B, Hna|]. split; [|split; [exact K|split; [exact PA|exact PN]]]. intros ->. split; [apply C; reflexivity|]. apply (proj2 (B I)). exact Hk0. }
+    destruct (FInv_run_while t (at_order a) _ false s0 (at_adds a) s' res (conj H0 (conj Hp0 (conj Hk0 Hr0))) E0) as [A [B [C [K [PA PN]]]]].
+    split; [exact A|]. split; [intros Hna; apply B, Hna|]. split; [|split; [exact K|split; [exact PA|intros Hr l; apply (PN Hr l); right; reflexivity]]]. intros ->. split; [apply C; reflexivity|]. apply (proj2 (B I)). exact Hk0. }
   destruct (is_subscription_error (su_status su)); [|apply (Hgo s HF Hp Hk Hrun E)].
   set (s1 := log_req s (ReqRegister t)) in *.
   assert (HF1 : FInv s1) by (apply (FInv_core s); auto).
@@ -2700,25 +2759,15 @@ Proof.
       * eapply Hgo; [|exact E]. cbn [f_log wr_c]. rewrite f_log_retrier_drop. reflexivity.
 Qed.
 
-(* in a state of the invariant the while loop needs at most two rounds: the first sends (a prefix of) the pending
-   set once, the second finds the set empty *)
-Lemma run_while_bounded t hint : forall fuel s adds s' res,
-  RunPre s t -> run_while (S (S fuel)) s t hint adds = (s', res) ->
-  res <> RunFuel /\ exists sent, f_log s' = f_log s ++ map (ReqAdd t) sent /\ NoDup sent /\ incl sent (retrier_pending s t).
+(* one round of the for loop over the whole set of the retrier *)
+Lemma run_round t hint s adds x p s1 adds1 r1 :
+  RunPre s t -> retrier_pending s t = x :: p -> run_for s t (reorder hint (x :: p)) adds = (s1, adds1, r1) ->
+  (exists dn, f_log s1 = f_log s ++ map (ReqAdd t) dn /\ NoDup dn /\ incl dn (x :: p)) /\
+  (forall r, r1 = Some r -> r <> RunOk /\ r <> RunFuel) /\
+  (r1 = None -> RunPre s1 t /\ retrier_pending s1 t = [] /\ (forall l, In l (x :: p) -> ~ Prow (c_db (f_c s1)) t l) /\
+                (forall l, Prow (c_db (f_c s1)) t l -> Prow (c_db (f_c s)) t l)).
 Proof.
-  intros fuel s adds s' res Hpre E.
-  change (run_while (S (S fuel)) s t hint adds) with
-    (match retrier_pending s t with
-     | [] => (s, RunOk)
-     | p => match run_for s t (reorder hint p) adds with
-            | (s1, _, Some r) => (s1, r)
-            | (s1, adds1, None) => run_while (S fuel) s1 t hint adds1
-            end
-     end) in E.
-  destruct (retrier_pending s t) as [|x p] eqn:Ep.
-  { inversion E. subst. split; [discriminate|]. exists []. cbn. rewrite app_nil_r. repeat split; [constructor|intros y []]. }
-  destruct (run_for s t (reorder hint (x :: p)) adds) as [[s1 adds1] r1] eqn:E1.
-  pose proof Hpre as [HF [Hp [Hk Hrun]]].
+  intros Hpre Ep E1. pose proof Hpre as [HF [Hp [Hk Hrun]]].
   assert (Hnd : NoDup (x :: p)).
   { destruct HF as [_ [_ [HV _]]]. destruct (HV Hp) as [_ [_ [V4 _]]]. unfold retrier_pending in Ep.
     destruct (aget (f_mgr s) t) as [r|] eqn:Er; [|discriminate]. rewrite <- Ep. eapply V4, Er. }
@@ -2726,16 +2775,92 @@ Proof.
   destruct (FInv_run_for t _ s adds s1 adds1 r1 Hpre Hndr) as [A [B [C [D [F [G [PA PN]]]]]]]; [|exact E1|].
   { intros l Hl. rewrite Ep. apply In_reorder in Hl. exact Hl. }
   destruct (run_for_log t _ s adds s1 adds1 r1 E1) as [dn [Hlog [Hincl Hnds]]].
-  assert (Hsent : NoDup dn /\ incl dn (x :: p)).
-  { split; [apply Hnds, Hndr|]. intros y Hy. apply (In_reorder hint). apply Hincl, Hy. }
+  split; [exists dn; split; [exact Hlog|split; [apply Hnds, Hndr|intros y Hy; apply (In_reorder hint), Hincl, Hy]]|].
+  split; [intros r ->; apply (run_for_not_ok t _ _ _ _ _ _ E1)|].
+  intros ->. destruct (B I) as [Hp1 Hk1]. split; [|split; [|split]].
+  - split; [exact A|]. split; [exact Hp1|]. split; [apply Hk1, Hk|].
+    pose proof (run_for_same t (reorder hint (x :: p)) s adds) as [_ Hs]. rewrite E1 in Hs. cbn [fst] in Hs. rewrite Hs. exact Hrun.
+  - assert (Hno : forall y, ~ In y (retrier_pending s1 t)).
+    { intros y Hy. apply (C eq_refl y); [|exact Hy]. apply In_reorder. rewrite <- Ep. apply D, Hy. }
+    destruct (retrier_pending s1 t) as [|y q]; [reflexivity|]. exfalso. apply (Hno y). left. reflexivity.
+  - intros l Hl. apply (PN eq_refl l). apply In_reorder. exact Hl.
+  - intros l Hl. apply (PA t l Hl).
+Qed.
+
+Lemma pick_up_sound s t l :
+  RunPre s t -> retrier_pending s t = [] -> In l (retrier_pending (pick_up s t) t) -> Prow (c_db (f_c s)) t l.
+Proof.
+  intros [HF [Hp [Hk Hrun]]] Ep Hl. unfold retrier_pending in Ep. unfold pick_up in Hl.
+  destruct (aget (f_mgr s) t) as [r|] eqn:Er.
+  - rewrite retrier_pending_put, N.eqb_refl in Hl. cbn [r_pending] in Hl. rewrite Ep in Hl. apply In_set_union in Hl. destruct Hl as [[]|Hl].
+    unfold tower_pending in Hl. destruct (aget (c_towers (f_c s)) t) as [su|] eqn:Et; [|contradiction].
+    eapply su_pending_rows; [apply HF|exact Hp|exact Et|exact Hl].
+  - unfold retrier_pending in Hl. rewrite Er in Hl. contradiction.
+Qed.
+
+Lemma run_while_S f picked s t hint adds :
+  run_while (S f) picked s t hint adds =
+  match retrier_pending s t with
+  | [] => if picked then (s, RunOk) else if poisoned s then (s, RunAbort (SClient Site_poisoned)) else
+          let s1 := pick_up s t in match retrier_pending s1 t with [] => (s1, RunOk) | _ => run_while f true s1 t hint adds end
+  | p => match run_for s t (reorder hint p) adds with
+         | (s1, _, Some r) => (s1, r)
+         | (s1, adds1, None) => run_while f picked s1 t hint adds1
+         end
+  end.
+Proof. reflexivity. Qed.
+
+(* after the pick-up: at most one more round *)
+Lemma run_while_bounded_picked t hint fuel s adds s' res :
+  RunPre s t -> run_while (S (S fuel)) true s t hint adds = (s', res) ->
+  res <> RunFuel /\ exists sent, f_log s' = f_log s ++ map (ReqAdd t) sent /\ NoDup sent /\ incl sent (retrier_pending s t).
+Proof.
+  intros Hpre E. rewrite run_while_S in E.
+  destruct (retrier_pending s t) as [|x p] eqn:Ep.
+  { inversion E. subst. split; [discriminate|]. exists []. cbn. rewrite app_nil_r. repeat split; [constructor|intros y []]. }
+  destruct (run_for s t (reorder hint (x :: p)) adds) as [[s1 adds1] r1] eqn:E1.
+  destruct (run_round t hint s adds x p s1 adds1 r1 Hpre Ep E1) as [[dn [Hlog Hsent]] [Hsome Hnone]].
   destruct r1 as [r|].
-  - inversion E. subst. split; [apply (run_for_not_ok t _ _ _ _ _ _ E1)|]. exists dn. split; [exact Hlog|exact Hsent].
-  - (* the whole set was processed: the next round finds it empty *)
-    assert (Hempty : retrier_pending s1 t = []).
-    { assert (Hno : forall y, ~ In y (retrier_pending s1 t)).
-      { intros y Hy. apply (C eq_refl y); [|exact Hy]. apply In_reorder. rewrite <- Ep. apply D, Hy. }
-      destruct (retrier_pending s1 t) as [|y q]; [reflexivity|]. exfalso. apply (Hno y). left. reflexivity. }
-    cbn [run_while] in E. rewrite Hempty in E. inversion E. subst. split; [discriminate|]. exists dn. split; [exact Hlog|exact Hsent].
+  - inversion E. subst. split; [apply (Hsome res eq_refl)|]. exists dn. split; [exact Hlog|exact Hsent].
+  - destruct (Hnone eq_refl) as [_ [Hempty _]]. rewrite run_while_S, Hempty in E. inversion E. subst. split; [discriminate|]. exists dn. split; [exact Hlog|exact Hsent].
+Qed.
+
+(* from an empty set: the pick-up, then at most one round *)
+Lemma run_while_bounded_empty t hint fuel s adds s' res :
+  RunPre s t -> retrier_pending s t = [] -> run_while (S (S (S fuel))) false s t hint adds = (s', res) ->
+  res <> RunFuel /\ exists sent, f_log s' = f_log s ++ map (ReqAdd t) sent /\ NoDup sent /\ (forall l, In l sent -> Prow (c_db (f_c s)) t l).
+Proof.
+  intros Hpre Ep E. rewrite run_while_S, Ep in E. pose proof Hpre as [_ [Hp _]]. rewrite Hp in E. cbv zeta in E.
+  pose proof (RunPre_pick_up s t Hpre) as Hpre1.
+  destruct (retrier_pending (pick_up s t) t) as [|y q] eqn:Ep1.
+  { inversion E. subst. split; [discriminate|]. exists []. cbn. rewrite app_nil_r, f_log_pick_up. repeat split; [constructor|intros y []]. }
+  destruct (run_while_bounded_picked t hint fuel (pick_up s t) adds s' res Hpre1 E) as [A [sent [B [C D]]]].
+  split; [exact A|]. exists sent. rewrite f_log_pick_up in B. split; [exact B|]. split; [exact C|].
+  intros l Hl. apply (pick_up_sound s t l Hpre Ep). apply D, Hl.
+Qed.
+
+(* in a state of the invariant the while loop needs at most four iterations: the retrier's set, the pick-up of what else is
+   pending for the tower, that set, and the final test; no locator is sent twice *)
+Lemma run_while_bounded t hint : forall fuel s adds s' res,
+  RunPre s t -> run_while (S (S (S (S fuel)))) false s t hint adds = (s', res) ->
+  res <> RunFuel /\ exists sent, f_log s' = f_log s ++ map (ReqAdd t) sent /\ NoDup sent /\
+    (forall l, In l sent -> In l (retrier_pending s t) \/ Prow (c_db (f_c s)) t l).
+Proof.
+  intros fuel s adds s' res Hpre E.
+  destruct (retrier_pending s t) as [|x p] eqn:Ep.
+  { destruct (run_while_bounded_empty t hint (S fuel) s adds s' res Hpre Ep E) as [A [sent [B [C D]]]].
+    split; [exact A|]. exists sent. split; [exact B|]. split; [exact C|]. intros l Hl. right. apply D, Hl. }
+  rewrite run_while_S in E.
+  rewrite Ep in E.
+  destruct (run_for s t (reorder hint (x :: p)) adds) as [[s1 adds1] r1] eqn:E1.
+  destruct (run_round t hint s adds x p s1 adds1 r1 Hpre Ep E1) as [[dn [Hlog [Hnd Hincl]]] [Hsome Hnone]].
+  destruct r1 as [r|].
+  - inversion E. subst. split; [apply (Hsome res eq_refl)|]. exists dn. split; [exact Hlog|]. split; [exact Hnd|]. intros l Hl. left. apply Hincl, Hl.
+  - destruct (Hnone eq_refl) as [Hpre1 [Hempty [Hgone Hback]]].
+    destruct (run_while_bounded_empty t hint fuel s1 adds1 s' res Hpre1 Hempty E) as [A [sent2 [B [C D]]]].
+    split; [exact A|]. exists (dn ++ sent2). split; [rewrite B, Hlog, map_app, app_assoc; reflexivity|]. split.
+    + apply NoDup_app_iff. split; [exact Hnd|]. split; [exact C|]. intros l H1 H2. apply (Hgone l (Hincl l H1)). apply D, H2.
+    + intros l Hl. apply in_app_or in Hl. destruct Hl as [Hl|Hl]; [left; apply Hincl, Hl|right; apply Hback, D, Hl].
 Qed.
 
 Theorem run_bounded ops t a :
@@ -2744,7 +2869,8 @@ Theorem run_bounded ops t a :
   fst (run_attempt s t a) = fst (run_attempt s t a) /\
   snd (run_attempt s t a) <> RunFuel /\
   exists reg sent, f_log (fst (run_attempt s t a)) = f_log s ++ reg ++ map (ReqAdd t) sent /\
-                   (reg = [] \/ reg = [ReqRegister t]) /\ NoDup sent /\ incl sent (retrier_pending s t).
+                   (reg = [] \/ reg = [ReqRegister t]) /\ NoDup sent /\
+                   (forall l, In l sent -> In l (retrier_pending s t) \/ Prow (c_db (f_c s)) t l).
 Proof.
   intros s Hin. split; [reflexivity|].
   pose proof (FInv_frun ops f_init FInv_init) as HF. fold s in HF.
@@ -2758,28 +2884,35 @@ Proof.
   { cbn. split; [discriminate|]. exists [], []. cbn. rewrite app_nil_r. repeat split; [left; reflexivity|constructor|intros y []]. }
   assert (Hgo : forall s0 reg, FInv s0 -> poisoned s0 = false -> knownc (f_c s0) t -> rstat s0 t = Some RRunning ->
             f_log s0 = f_log s ++ reg -> retrier_pending s0 t = retrier_pending s t ->
-            snd (run_while (run_fuel s0 t) s0 t (at_order a) (at_adds a)) <> RunFuel /\
-            exists sent, f_log (fst (run_while (run_fuel s0 t) s0 t (at_order a) (at_adds a))) = f_log s ++ reg ++ map (ReqAdd t) sent /\
-                         NoDup sent /\ incl sent (retrier_pending s t)).
-  { intros s0 reg H0 Hp0 Hk0 Hr0 Hl0 Hpe0. unfold run_fuel.
-    destruct (run_while (S (S (length (retrier_pending s0 t)))) s0 t (at_order a) (at_adds a)) as [sx rx] eqn:Ex.
+            (forall l, Prow (c_db (f_c s0)) t l -> Prow (c_db (f_c s)) t l) ->
+            snd (run_while (run_fuel s0 t) false s0 t (at_order a) (at_adds a)) <> RunFuel /\
+            exists sent, f_log (fst (run_while (run_fuel s0 t) false s0 t (at_order a) (at_adds a))) = f_log s ++ reg ++ map (ReqAdd t) sent /\
+                         NoDup sent /\ (forall l, In l sent -> In l (retrier_pending s t) \/ Prow (c_db (f_c s)) t l)).
+  { intros s0 reg H0 Hp0 Hk0 Hr0 Hl0 Hpe0 HP0. unfold run_fuel.
+    destruct (run_while (S (S (S (S (length (retrier_pending s0 t)))))) false s0 t (at_order a) (at_adds a)) as [sx rx] eqn:Ex.
     destruct (run_while_bounded t (at_order a) _ s0 (at_adds a) sx rx (conj H0 (conj Hp0 (conj Hk0 Hr0))) Ex) as [A [sent [B [C D]]]].
-    cbn [fst snd]. split; [exact A|]. exists sent. split; [rewrite B, Hl0, <- app_assoc; reflexivity|]. split; [exact C|rewrite <- Hpe0; exact D]. }
+    cbn [fst snd]. split; [exact A|]. exists sent. split; [rewrite B, Hl0, <- app_assoc; reflexivity|]. split; [exact C|].
+    intros l Hl. destruct (D l Hl) as [H|H]; [left; rewrite <- Hpe0; exact H|right; apply HP0, H]. }
   destruct (is_subscription_error (su_status su)).
-  2:{ destruct (Hgo s [] HF Hp Hk Hrun) as [A [sent [B C]]]; [rewrite app_nil_r; reflexivity|reflexivity|].
+  2:{ destruct (Hgo s [] HF Hp Hk Hrun) as [A [sent [B C]]]; [rewrite app_nil_r; reflexivity|reflexivity|auto|].
       split; [exact A|]. exists [], sent. split; [exact B|]. split; [left; reflexivity|exact C]. }
   set (s1 := log_req s (ReqRegister t)).
   assert (HF1 : FInv s1) by (apply (FInv_core s); auto).
   assert (Hnone : forall e, (s1, RunErr e) = (s1, RunErr e) -> RunErr e <> RunFuel /\
-            exists reg sent, f_log s1 = f_log s ++ reg ++ map (ReqAdd t) sent /\ (reg = [] \/ reg = [ReqRegister t]) /\ NoDup sent /\ incl sent (retrier_pending s t)).
+            exists reg sent, f_log s1 = f_log s ++ reg ++ map (ReqAdd t) sent /\ (reg = [] \/ reg = [ReqRegister t]) /\ NoDup sent /\
+              (forall l, In l sent -> In l (retrier_pending s t) \/ Prow (c_db (f_c s)) t l)).
   { intros e _. split; [discriminate|]. exists [ReqRegister t], []. cbn. repeat split; [right; reflexivity|constructor|intros y []]. }
   destruct (at_reg a) as [slots start expiry sig_ok| | | |]; cbn [fst snd]; try (apply (Hnone _ eq_refl)).
   destruct (negb sig_ok); cbn [fst snd]; [apply (Hnone _ eq_refl)|].
   destruct (wt_add_update_tower (f_c s1) t (su_addr su) slots start expiry REG_SIG) as [c' r] eqn:Eu.
   destruct (FInv_renew s1 t _ _ _ _ _ c' r HF1 Hp Hk Eu) as [HF2 Hok].
+  assert (HPeq : forall l, Prow (c_db c') t l -> Prow (c_db (f_c s)) t l).
+  { pose proof HF as [HI _]. destruct (prim_add_update_tower _ _ _ _ _ _ _ _ _ HI Hp Eu) as [_ [_ [_ [[Ed _]|[_ [_ [_ [_ [_ Hfr]]]]]]]]].
+    - rewrite Ed. auto.
+    - intros l. apply (Prow_ext _ _ t l (Hfr T_pending_appointments ltac:(discriminate) ltac:(discriminate))). }
   destruct r; cbn [fst snd]; try (split; [discriminate|]; exists [ReqRegister t], []; cbn; repeat split; [right; reflexivity|constructor|intros y []]).
   destruct (Hok eq_refl) as [Hp2 Hkn2].
-  destruct (Hgo (wr_c s1 c') [ReqRegister t] HF2 Hp2 (proj2 (Hkn2 t) Hk) Hrun eq_refl eq_refl) as [A [sent [B C]]].
+  destruct (Hgo (wr_c s1 c') [ReqRegister t] HF2 Hp2 (proj2 (Hkn2 t) Hk) Hrun eq_refl eq_refl HPeq) as [A [sent [B C]]].
   split; [exact A|]. exists [ReqRegister t], sent. split; [exact B|]. split; [right; reflexivity|exact C].
 Qed.
 
@@ -3269,11 +3402,13 @@ Proof.
 Qed.
 
 
-Lemma run_while_no_abort t hint : forall fuel s adds,
-  RunPre s t -> match snd (run_while fuel s t hint adds) with RunAbort _ => False | _ => True end.
+Lemma run_while_no_abort t hint : forall fuel picked s adds,
+  RunPre s t -> match snd (run_while fuel picked s t hint adds) with RunAbort _ => False | _ => True end.
 Proof.
-  induction fuel as [|f IH]; intros s adds Hpre; cbn [run_while]; [exact I|].
-  destruct (retrier_pending s t) as [|x p] eqn:Ep; [exact I|].
+  induction fuel as [|f IH]; intros picked s adds Hpre; cbn [run_while]; [exact I|].
+  destruct (retrier_pending s t) as [|x p] eqn:Ep.
+  { destruct picked; [exact I|]. pose proof Hpre as [_ [Hp0 _]]. rewrite Hp0.
+    destruct (retrier_pending (pick_up s t) t); [exact I|]. apply IH, RunPre_pick_up, Hpre. }
   pose proof Hpre as [HF [Hp [Hk Hrun]]].
   assert (Hnd : NoDup (x :: p)).
   { destruct HF as [_ [_ [HV _]]]. destruct (HV Hp) as [_ [_ [V4 _]]]. unfold retrier_pending in Ep.
@@ -3561,10 +3696,13 @@ Qed.
 
 (* a retry task only talks to its own tower *)
 Definition to_tower (k : N) (r : req) : Prop := match r with ReqRegister k' => k' = k | ReqAdd k' _ => k' = k end.
-Lemma run_while_log t hint : forall fuel s adds, log_ext s (fst (run_while fuel s t hint adds)) (to_tower t).
+Lemma run_while_log t hint : forall fuel picked s adds, log_ext s (fst (run_while fuel picked s t hint adds)) (to_tower t).
 Proof.
-  induction fuel as [|f IH]; intros s adds; cbn [run_while]; [apply log_ext_refl|].
-  destruct (retrier_pending s t) as [|x p]; [apply log_ext_refl|].
+  induction fuel as [|f IH]; intros picked s adds; cbn [run_while]; [apply log_ext_refl|].
+  destruct (retrier_pending s t) as [|x p].
+  { destruct picked; [apply log_ext_refl|]. destruct (poisoned s); [apply log_ext_refl|].
+    destruct (retrier_pending (pick_up s t) t); cbn [fst]; [apply log_ext_same, f_log_pick_up|].
+    eapply log_ext_trans; [apply log_ext_same, f_log_pick_up|apply IH]. }
   destruct (run_for s t (reorder hint (x :: p)) adds) as [[s1 adds1] r1] eqn:E1.
   destruct (run_for_log t _ s adds s1 adds1 r1 E1) as [sent [Hlog _]].
   assert (H1 : log_ext s s1 (to_tower t)).
@@ -3819,10 +3957,13 @@ Proof.
     assert (H23 : mis_back (f_c s) c3) by (apply mis_back_stat; intros k; rewrite H3; apply H2).
     destruct (lift_site r3); cbn [fst f_c wr_c]; [exact H23|]. eapply mis_back_trans; [exact H23|apply (IH (wr_c (wr_c (retrier_drop (log_req s (ReqAdd t l)) t l) c2) c3))].
 Qed.
-Lemma run_while_mis_back t hint : forall fuel s adds, mis_back (f_c s) (f_c (fst (run_while fuel s t hint adds))).
+Lemma run_while_mis_back t hint : forall fuel picked s adds, mis_back (f_c s) (f_c (fst (run_while fuel picked s t hint adds))).
 Proof.
-  induction fuel as [|f IH]; intros s adds; cbn [run_while]; [apply mis_back_refl|].
-  destruct (retrier_pending s t) as [|x p]; [apply mis_back_refl|].
+  induction fuel as [|f IH]; intros picked s adds; cbn [run_while]; [apply mis_back_refl|].
+  destruct (retrier_pending s t) as [|x p].
+  { destruct picked; [apply mis_back_refl|]. destruct (poisoned s); [apply mis_back_refl|].
+    destruct (retrier_pending (pick_up s t) t); cbn [fst]; [rewrite f_c_pick_up; apply mis_back_refl|].
+    pose proof (IH true (pick_up s t) adds) as H. rewrite f_c_pick_up in H. exact H. }
   pose proof (run_for_mis_back t (reorder hint (x :: p)) s adds) as H1.
   destruct (run_for s t (reorder hint (x :: p)) adds) as [[s1 adds1] [r|]]; cbn [fst] in *; [exact H1|]. eapply mis_back_trans; [exact H1|apply IH].
 Qed.
@@ -3837,51 +3978,82 @@ Proof.
   assert (Hk : knownc (f_c (log_req s (ReqRegister t))) t) by (unfold knownc, amem; cbn [f_c log_req]; rewrite Et; reflexivity).
   pose proof (mis_back_add_update_tower (f_c (log_req s (ReqRegister t))) t (su_addr su) slots start expiry REG_SIG Hk) as H1.
   destruct (wt_add_update_tower _ _ _ _ _ _ _) as [c' r]. cbn [fst] in H1. destruct r; cbn [fst f_c set_c]; try exact H1.
-  eapply mis_back_trans; [exact H1|apply (run_while_mis_back t (at_order a) _ (wr_c (log_req s (ReqRegister t)) c'))].
+  eapply mis_back_trans; [exact H1|apply (run_while_mis_back t (at_order a) _ false (wr_c (log_req s (ReqRegister t)) c'))].
+Qed.
+
+(* ... and consumes at most one reply per locator *)
+Lemma run_for_accept2 t : forall locs s sl rest,
+  (length locs <= length sl)%nat ->
+  exists k, (k <= length locs)%nat /\ (snd (run_for s t locs (accept_all sl ++ rest)) = None -> snd (fst (run_for s t locs (accept_all sl ++ rest))) = accept_all (skipn k sl) ++ rest).
+Proof.
+  induction locs as [|l locs IH]; intros s sl rest Hlen; cbn [run_for]; [exists 0%nat; split; [lia|reflexivity]|].
+  destruct (poisoned s); [exists 0%nat; split; [lia|discriminate]|].
+  destruct (load_pending (f_c s) t l).
+  2:{ destruct (IH (retrier_drop s t l) sl rest) as [k [A B]]; [cbn in Hlen; lia|]. exists k. split; [cbn; lia|exact B]. }
+  destruct sl as [|n sl]; [cbn in Hlen; lia|]. cbn [accept_all map app next_reply].
+  destruct (wt_add_appointment_receipt _ _ _ _ _ _ _) as [c2 r2]. destruct (lift_site r2); [exists 0%nat; split; [lia|discriminate]|].
+  destruct (wt_remove_pending_appointment c2 t l) as [c3 r3]. destruct (lift_site r3); [exists 0%nat; split; [lia|discriminate]|].
+  destruct (IH (wr_c (wr_c (retrier_drop (log_req s (ReqAdd t l)) t l) c2) c3) sl rest) as [k [A B]]; [cbn in Hlen; lia|].
+  exists (S k). split; [cbn; lia|]. exact B.
 Qed.
 
 (* one attempt against a tower that accepts everything (and, after a subscription error, renews the subscription
    with an extending receipt first): run returns Ok *)
 Lemma run_attempt_accept s t a sl rest :
   FInv s -> poisoned s = false -> rstat s t = Some RRunning -> knownc (f_c s) t -> stat (f_c s) t <> Some Misbehaving ->
-  at_adds a = accept_all sl ++ rest -> (length (retrier_pending s t) <= length sl)%nat ->
+  at_adds a = accept_all sl ++ rest ->
+  (length (retrier_pending s t) + length (pending_locators (c_db (f_c s)) t) <= length sl)%nat ->
   (stat (f_c s) t = Some SubscriptionError ->
      exists slots start expiry, at_reg a = RReceipt slots start expiry true /\ reg_extends (f_c s) t slots expiry = true) ->
   snd (run_attempt s t a) = RunOk.
 Proof.
   intros HF Hp Hrun Hk Hnm Hadds Hlen Hreg.
-  assert (Hgo : forall s0, FInv s0 -> poisoned s0 = false -> knownc (f_c s0) t -> rstat s0 t = Some RRunning ->
-            retrier_pending s0 t = retrier_pending s t ->
-            snd (run_while (run_fuel s0 t) s0 t (at_order a) (at_adds a)) = RunOk).
-  { intros s0 H0 Hp0 Hk0 Hr0 Hpe. pose proof (conj H0 (conj Hp0 (conj Hk0 Hr0))) as Hpre.
-    unfold run_fuel. remember (length (retrier_pending s0 t)) as fuel eqn:Efuel.
-    change (run_while (S (S fuel)) s0 t (at_order a) (at_adds a)) with
-      (match retrier_pending s0 t with
-       | [] => (s0, RunOk)
-       | p => match run_for s0 t (reorder (at_order a) p) (at_adds a) with
-              | (s1, _, Some r) => (s1, r)
-              | (s1, adds1, None) => run_while (S fuel) s1 t (at_order a) adds1
-              end
-       end). clear Efuel.
-    destruct (retrier_pending s0 t) as [|x p] eqn:Ep; [reflexivity|].
+  (* a round over the whole set with enough acceptances left ends with the set empty *)
+  assert (Hround : forall s0 sl0 x p, RunPre s0 t -> retrier_pending s0 t = x :: p -> (length (x :: p) <= length sl0)%nat ->
+            exists s1 k, run_for s0 t (reorder (at_order a) (x :: p)) (accept_all sl0 ++ rest) = (s1, accept_all (skipn k sl0) ++ rest, None) /\
+                         (k <= length (x :: p))%nat /\ RunPre s1 t /\ retrier_pending s1 t = [] /\
+                         (forall l, Prow (c_db (f_c s1)) t l -> Prow (c_db (f_c s0)) t l)).
+  { intros s0 sl0 x p Hpre Ep Hl0. pose proof Hpre as [H0 [Hp0 _]].
     assert (Hnd : NoDup (x :: p)).
     { destruct H0 as [_ [_ [HV _]]]. destruct (HV Hp0) as [_ [_ [V4 _]]]. unfold retrier_pending in Ep.
       destruct (aget (f_mgr s0) t) as [r|] eqn:Er; [|discriminate]. rewrite <- Ep. eapply V4, Er. }
     pose proof (NoDup_reorder (at_order a) _ Hnd) as Hndr.
     assert (Hsub : forall l, In l (reorder (at_order a) (x :: p)) -> In l (retrier_pending s0 t)) by (intros l Hl; rewrite Ep; apply In_reorder in Hl; exact Hl).
-    pose proof (run_for_no_abort t _ s0 (at_adds a) Hpre Hndr Hsub) as Hna.
-    assert (Hlen0 : (length (reorder (at_order a) (x :: p)) <= length sl)%nat).
-    { rewrite (length_reorder _ _ Hnd). rewrite Hpe. exact Hlen. }
-    pose proof (run_for_accept t (reorder (at_order a) (x :: p)) s0 sl rest Hlen0) as Hacc. rewrite <- Hadds in Hacc.
-    destruct (run_for s0 t (reorder (at_order a) (x :: p)) (at_adds a)) as [[s1 adds1] r1] eqn:E1. cbn [snd] in Hna, Hacc.
-    destruct r1 as [r|].
-    - exfalso. destruct r; contradiction.
-    - destruct (FInv_run_for t _ s0 (at_adds a) s1 adds1 None Hpre Hndr Hsub E1) as [_ [_ [C [D _]]]].
-      assert (Hempty : retrier_pending s1 t = []).
-      { assert (Hno : forall y, ~ In y (retrier_pending s1 t)).
-        { intros y Hy. apply (C eq_refl y); [|exact Hy]. apply In_reorder. rewrite <- Ep. apply D, Hy. }
-        destruct (retrier_pending s1 t) as [|y q]; [reflexivity|]. exfalso. apply (Hno y). left. reflexivity. }
-      cbn [run_while]. rewrite Hempty. reflexivity. }
+    pose proof (run_for_no_abort t _ s0 (accept_all sl0 ++ rest) Hpre Hndr Hsub) as Hna.
+    assert (Hlen0 : (length (reorder (at_order a) (x :: p)) <= length sl0)%nat) by (rewrite (length_reorder _ _ Hnd); exact Hl0).
+    pose proof (run_for_accept t (reorder (at_order a) (x :: p)) s0 sl0 rest Hlen0) as Hacc.
+    destruct (run_for_accept2 t (reorder (at_order a) (x :: p)) s0 sl0 rest Hlen0) as [k [Hk1 Hk2]].
+    destruct (run_for s0 t (reorder (at_order a) (x :: p)) (accept_all sl0 ++ rest)) as [[s1 adds1] r1] eqn:E1. cbn [fst snd] in *.
+    destruct r1 as [r|]; [exfalso; destruct r; contradiction|].
+    destruct (run_round t (at_order a) s0 _ x p s1 adds1 None Hpre Ep E1) as [_ [_ Hnone]]. destruct (Hnone eq_refl) as [Hpre1 [Hempty [_ Hback]]].
+    exists s1, k. rewrite (Hk2 eq_refl). split; [reflexivity|]. split; [rewrite (length_reorder _ _ Hnd) in Hk1; exact Hk1|]. split; [exact Hpre1|]. split; [exact Hempty|exact Hback]. }
+  assert (Hgo : forall s0, FInv s0 -> poisoned s0 = false -> knownc (f_c s0) t -> rstat s0 t = Some RRunning ->
+            retrier_pending s0 t = retrier_pending s t -> (forall l, Prow (c_db (f_c s0)) t l -> Prow (c_db (f_c s)) t l) ->
+            snd (run_while (run_fuel s0 t) false s0 t (at_order a) (at_adds a)) = RunOk).
+  { intros s0 H0 Hp0 Hk0 Hr0 Hpe HP0. pose proof (conj H0 (conj Hp0 (conj Hk0 Hr0))) as Hpre.
+    unfold run_fuel. remember (length (retrier_pending s0 t)) as fuel eqn:Efuel. rewrite Hadds.
+    (* the pick-up and the last round, from a state with an empty set *)
+    assert (Hempty : forall sE slE f, RunPre sE t -> retrier_pending sE t = [] -> (forall l, Prow (c_db (f_c sE)) t l -> Prow (c_db (f_c s)) t l) ->
+              (length (pending_locators (c_db (f_c s)) t) <= length slE)%nat ->
+              snd (run_while (S (S (S f))) false sE t (at_order a) (accept_all slE ++ rest)) = RunOk).
+    { intros sE slE f0 HpreE EpE HPE HlE. rewrite run_while_S, EpE. pose proof HpreE as [HFE [HpE _]]. rewrite HpE. cbv zeta.
+      pose proof (RunPre_pick_up sE t HpreE) as Hpre1.
+      destruct (retrier_pending (pick_up sE t) t) as [|y q] eqn:Ep1; [reflexivity|].
+      assert (Hl2 : (length (y :: q) <= length slE)%nat).
+      { eapply Nat.le_trans; [|exact HlE]. apply NoDup_incl_length.
+        - pose proof Hpre1 as [[_ [_ [HV1 _]]] [Hp1 _]]. destruct (HV1 Hp1) as [_ [_ [V4 _]]]. unfold retrier_pending in Ep1.
+          destruct (aget (f_mgr (pick_up sE t)) t) as [r|] eqn:Er; [|discriminate]. rewrite <- Ep1. eapply V4, Er.
+        - intros l Hl. apply In_pending_locators. rewrite <- Ep1 in Hl. apply (pick_up_sound sE t l HpreE EpE) in Hl. apply HPE in Hl.
+          destruct Hl as [row [A [B C]]]. exists row. auto. }
+      destruct (Hround (pick_up sE t) slE y q Hpre1 Ep1 Hl2) as [s2 [k [E2 [_ [_ [Hempty2 _]]]]]].
+      rewrite run_while_S, Ep1, E2, run_while_S, Hempty2. reflexivity. }
+    destruct (retrier_pending s0 t) as [|x p] eqn:Ep.
+    { subst fuel. apply (Hempty s0 sl 1%nat Hpre Ep HP0). lia. }
+    assert (Hl1 : (length (x :: p) <= length sl)%nat) by (rewrite Hpe; lia).
+    destruct (Hround s0 sl x p Hpre Ep Hl1) as [s1 [k [E1 [Hk1 [Hpre1 [Hempty1 Hback]]]]]].
+    rewrite run_while_S, Ep, E1. subst fuel. cbn [length]. apply (Hempty s1 (skipn k sl) _ Hpre1 Hempty1).
+    - intros l Hl. apply HP0, Hback, Hl.
+    - rewrite skipn_length. rewrite Hpe in Hk1. lia. }
   unfold run_attempt. rewrite Hp. unfold knownc, amem in Hk. destruct (aget (c_towers (f_c s)) t) as [su|] eqn:Et; [|discriminate].
   destruct (is_misbehaving (su_status su)) eqn:Emis.
   { exfalso. apply Hnm. unfold stat. rewrite Et. cbn. destruct (su_status su); try discriminate. reflexivity. }
@@ -3898,24 +4070,29 @@ Proof.
   destruct (wt_add_update_tower (f_c s1) t (su_addr su) slots start expiry REG_SIG) as [c' r] eqn:Eu. cbn [fst snd] in Hc, Hok.
   destruct Hc as [[-> _]|[Hne [_ Hab]]].
   - destruct (FInv_renew s1 t _ _ _ _ _ c' ROk HF1 Hp Hk1 Eu) as [HF2 Hok2]. destruct (Hok2 eq_refl) as [Hp2 Hkn2].
-    apply (Hgo (wr_c s1 c')); [exact HF2|exact Hp2|apply Hkn2, Hk1|exact Hrun|reflexivity].
+    apply (Hgo (wr_c s1 c')); [exact HF2|exact Hp2|apply Hkn2, Hk1|exact Hrun|reflexivity|].
+    pose proof HF as [HI _]. destruct (prim_add_update_tower _ _ _ _ _ _ _ _ _ HI Hp Eu) as [_ [_ [_ [[Ed _]|[_ [_ [_ [_ [_ Hfr]]]]]]]]].
+    + cbn [f_c wr_c]. rewrite Ed. auto.
+    + intros l. cbn [f_c wr_c]. apply (Prow_ext _ _ t l (Hfr T_pending_appointments ltac:(discriminate) ltac:(discriminate))).
   - exfalso. destruct (Hab Hext) as [st ->]. discriminate Hok.
 Qed.
 
-(* DELIVERY: a live retry task of a known tower (not flagged) that now accepts: ONE attempt delivers the whole retrier
-   set; the task ends, the tower is reachable, its retrier stopped with an empty set, no locator of the set is a
-   pending row any more, and each one that WAS a pending row still has a record (the others were stale and dropped) *)
+(* DELIVERY: a live retry task of a known tower (not flagged) that now accepts: ONE attempt delivers everything that is
+   pending for the tower - the retrier's set and, since the repair of D7, whatever else is pending for it; the task ends,
+   the tower is reachable, its retrier stopped with an empty set, NO pending row of the tower is left and every row that
+   was pending has a record (locators of the set that were not pending any more were stale and are dropped) *)
 Theorem delivers_attempt ops t a sl rest :
   let s := frun f_init ops in poisoned s = false ->
   In t (f_tasks s) -> knownc (f_c s) t -> stat (f_c s) t <> Some Misbehaving ->
-  at_adds a = accept_all sl ++ rest -> (length (retrier_pending s t) <= length sl)%nat ->
+  at_adds a = accept_all sl ++ rest ->
+  (length (retrier_pending s t) + length (pending_locators (c_db (f_c s)) t) <= length sl)%nat ->
   (stat (f_c s) t = Some SubscriptionError ->
      exists slots start expiry, at_reg a = RReceipt slots start expiry true /\ reg_extends (f_c s) t slots expiry = true) ->
   let s' := fst (fstep s (FRetrierRun t [a])) in
   snd (fstep s (FRetrierRun t [a])) = ORun OutDelivered /\
   stat (f_c s') t = Some Reachable /\ rstat s' t = Some RStopped /\ retrier_pending s' t = [] /\
   ~ In t (f_tasks s') /\ aget (c_retriers (f_c s')) t = None /\
-  (forall l, In l (retrier_pending s t) -> ~ Prow (c_db (f_c s')) t l /\ (Prow (c_db (f_c s)) t l -> recorded (c_db (f_c s')) t l)) /\
+  (forall l, ~ Prow (c_db (f_c s')) t l) /\ (forall l, Prow (c_db (f_c s)) t l -> recorded (c_db (f_c s')) t l) /\
   (forall k x, Prow (c_db (f_c s')) k x -> Prow (c_db (f_c s)) k x).
 Proof.
   intros s Hp Hin Hk Hnm Hadds Hlen Hreg. pose proof (FInv_frun ops f_init FInv_init) as HF. fold s in HF.
@@ -3951,9 +4128,9 @@ Proof.
   split; [apply Hnr|].
   split.
   { unfold c2. cbn [c_retriers with_retriers]. rewrite aget_aremove, N.eqb_refl. reflexivity. }
+  split; [intros l; unfold c2; cbn [c_db with_retriers]; rewrite DbInv_set_status; apply (PN eq_refl l)|].
   split; [|intros k x; unfold c2; cbn [c_db with_retriers]; rewrite DbInv_set_status; apply PA].
-  intros l Hl. unfold c2. cbn [c_db with_retriers]. rewrite DbInv_set_status. split; [apply (PN eq_refl l Hl)|].
-  intros HPl. apply K. right. left. exact HPl.
+  intros l HPl. unfold c2. cbn [c_db with_retriers]. rewrite DbInv_set_status. apply K. right. left. exact HPl.
 Qed.
 
 (* ---- a tower that keeps failing ---- *)
@@ -4220,9 +4397,13 @@ Proof.
     apply IH. apply (MgrKeys_drop (log_req s _)), H.
 Qed.
 
-Lemma MgrKeys_run_while t hint : forall fuel s adds, MgrKeys s -> MgrKeys (fst (run_while fuel s t hint adds)).
+Lemma MgrKeys_pick_up s t : MgrKeys s -> MgrKeys (pick_up s t).
+Proof. intros H. unfold pick_up. destruct (aget (f_mgr s) t); [apply MgrKeys_put|]; exact H. Qed.
+Lemma MgrKeys_run_while t hint : forall fuel picked s adds, MgrKeys s -> MgrKeys (fst (run_while fuel picked s t hint adds)).
 Proof.
-  induction fuel as [|f IH]; intros s adds H; cbn [run_while]; [exact H|]. destruct (retrier_pending s t) as [|x p]; [exact H|].
+  induction fuel as [|f IH]; intros picked s adds H; cbn [run_while]; [exact H|]. destruct (retrier_pending s t) as [|x p].
+  { destruct picked; [exact H|]. destruct (poisoned s); [exact H|].
+    destruct (retrier_pending (pick_up s t) t); cbn [fst]; [apply MgrKeys_pick_up, H|apply IH, MgrKeys_pick_up, H]. }
   pose proof (MgrKeys_run_for t (reorder hint (x :: p)) s adds H) as H1.
   destruct (run_for s t (reorder hint (x :: p)) adds) as [[s1 a1] [r|]]; cbn [fst] in *; [exact H1|apply IH, H1].
 Qed.
@@ -4469,7 +4650,7 @@ Theorem delivers_on_recovery ops t r0 a sl rest :
   stat (f_c s) t <> Some SubscriptionError -> stat (f_c s) t <> Some Misbehaving ->
   set_union (r_pending r0) (pending_locators (c_db (f_c s)) t) <> [] ->
   at_adds a = accept_all sl ++ rest ->
-  (length (set_union (r_pending r0) (pending_locators (c_db (f_c s)) t)) <= length sl)%nat ->
+  (length (set_union (r_pending r0) (pending_locators (c_db (f_c s)) t)) + length (pending_locators (c_db (f_c s)) t) <= length sl)%nat ->
   let s3 := frun s [FManagerTick [t]; FManagerTick []; FRetrierRun t [a]] in
   pending_locators (c_db (f_c s3)) t = [] /\ stat (f_c s3) t = Some Reachable /\ rstat s3 t = Some RStopped /\
   retrier_pending s3 t = [] /\ ~ In t (f_tasks s3) /\ aget (c_retriers (f_c s3)) t = None.
@@ -4504,18 +4685,14 @@ Proof.
   assert (Hnm2 : stat (f_c s2) t <> Some Misbehaving).
   { rewrite S4, W3. destruct (stat (f_c s) t) as [[]|]; try discriminate; try (intros H; apply Hnm; exact H). }
   pose proof (delivers_attempt (ops ++ [FManagerTick [t]; FManagerTick []]) t a sl rest) as D. cbv zeta in D. rewrite E2 in D.
-  destruct D as [D1 [D2 [D3 [D4 [D5 [D6 [D7 D8]]]]]]]; [exact S8|exact S3|exact Hk2|exact Hnm2|exact Hadds|rewrite Hpend2; exact Hlen|intros H; contradiction|].
+  destruct D as [D1 [D2 [D3 [D4 [D5 [D6 [D7 [D7b D8]]]]]]]]; [exact S8|exact S3|exact Hk2|exact Hnm2|exact Hadds|rewrite Hpend2, S5, W4; exact Hlen|intros H; contradiction|].
   cbn [fstep] in *. destruct (f_retrier_run s2 t [a]) as [s3 o]. cbn [fst snd] in *.
   split; [|repeat (split; [assumption|]); assumption].
-  (* no pending row of t is left: each one was a pending row before the ticks, hence in the woken set, hence delivered *)
+  (* no pending row of t is left *)
   destruct (pending_locators (c_db (f_c s3)) t) as [|x q] eqn:Eq; [reflexivity|]. exfalso.
   assert (Hx : In x (pending_locators (c_db (f_c s3)) t)) by (rewrite Eq; left; reflexivity).
   apply In_pending_locators in Hx. destruct Hx as [row [A [B C]]].
-  assert (HP3 : Prow (c_db (f_c s3)) t x) by (exists row; auto).
-  pose proof (D8 t x HP3) as HP2. rewrite S5, W4 in HP2.
-  assert (HinP : In x P).
-  { unfold P. apply In_set_union. right. apply In_pending_locators. destruct HP2 as [row2 [A2 [B2 C2]]]. exists row2. auto. }
-  rewrite <- Hpend2 in HinP. destruct (D7 x HinP) as [Hno _]. exact (Hno HP3).
+  apply (D7 x). exists row. auto.
 Qed.
 
 (* ====================================================================== *)
@@ -4635,12 +4812,17 @@ Proof.
   rewrite <- Hd1 in Hok1. destruct (IH s1 adds1 Hpre1 Hnd' Hsub1 Hok1) as [X Y]. rewrite Hd1 in X. split; [exact X|congruence].
 Qed.
 
-Lemma run_while_dbs t hint : forall fuel s adds,
+Lemma run_while_dbs t hint : forall fuel picked s adds,
   RunPre s t -> DbsOk (f_due s) s ->
-  DbsOk (f_due s) (fst (run_while fuel s t hint adds)) /\ f_due (fst (run_while fuel s t hint adds)) = f_due s.
+  DbsOk (f_due s) (fst (run_while fuel picked s t hint adds)) /\ f_due (fst (run_while fuel picked s t hint adds)) = f_due s.
 Proof.
-  induction fuel as [|f IH]; intros s adds Hpre Hok; cbn [run_while]; [split; [exact Hok|reflexivity]|].
-  destruct (retrier_pending s t) as [|x p] eqn:Ep; [split; [exact Hok|reflexivity]|].
+  induction fuel as [|f IH]; intros picked s adds Hpre Hok; cbn [run_while]; [split; [exact Hok|reflexivity]|].
+  destruct (retrier_pending s t) as [|x p] eqn:Ep.
+  { destruct picked; [split; [exact Hok|reflexivity]|]. destruct (poisoned s); [split; [exact Hok|reflexivity]|].
+    assert (Hok1 : DbsOk (f_due (pick_up s t)) (pick_up s t)) by (rewrite f_due_pick_up; apply (DbsOk_same _ s); [apply f_dbs_pick_up|exact Hok]).
+    destruct (retrier_pending (pick_up s t) t); cbn [fst].
+    - split; [apply (DbsOk_same _ s); [apply f_dbs_pick_up|exact Hok]|apply f_due_pick_up].
+    - destruct (IH true (pick_up s t) adds (RunPre_pick_up s t Hpre) Hok1) as [X Y]. rewrite f_due_pick_up in X, Y. split; assumption. }
   pose proof Hpre as [HF [Hp [Hk Hrun]]].
   assert (Hnd : NoDup (x :: p)).
   { destruct HF as [_ [_ [HV _]]]. destruct (HV Hp) as [_ [_ [V4 _]]]. unfold retrier_pending in Ep.
@@ -4654,7 +4836,7 @@ Proof.
   assert (Hpre1 : RunPre s1 t).
   { split; [exact A|]. split; [exact Hp1|]. split; [apply Hk1, Hk|].
     pose proof (run_for_same t (reorder hint (x :: p)) s adds) as [_ Hs]. rewrite E1 in Hs. cbn [fst] in Hs. rewrite Hs. exact Hrun. }
-  rewrite <- D2 in D1. destruct (IH s1 adds1 Hpre1 D1) as [X Y]. rewrite D2 in X. split; [exact X|congruence].
+  rewrite <- D2 in D1. destruct (IH picked s1 adds1 Hpre1 D1) as [X Y]. rewrite D2 in X. split; [exact X|congruence].
 Qed.
 
 Lemma run_attempt_dbs s t a :
@@ -4676,7 +4858,7 @@ Proof.
   destruct (Hok2 eq_refl) as [Hp2 Hkn2].
   assert (Hok' : DbsOk (f_due (wr_c s1 c')) (wr_c s1 c')).
   { apply DbsOk_wr; [exact Hok|]. apply AtLeast_DurInv. apply HF2. }
-  destruct (run_while_dbs t (at_order a) (run_fuel (wr_c s1 c') t) (wr_c s1 c') (at_adds a)) as [X Y]; [|exact Hok'|split; [exact X|exact Y]].
+  destruct (run_while_dbs t (at_order a) (run_fuel (wr_c s1 c') t) false (wr_c s1 c') (at_adds a)) as [X Y]; [|exact Hok'|split; [exact X|exact Y]].
   split; [exact HF2|]. split; [exact Hp2|]. split; [apply Hkn2, Hk|exact Hrun].
 Qed.
 
@@ -4916,4 +5098,45 @@ Proof.
   cbn [f_c f_chan push_chan set_chan set_c log_req]. split; [|split; [|rewrite Epe; reflexivity]].
   - rewrite stat_set_status, N.eqb_refl. unfold stat. rewrite Et. cbn. f_equal. apply sticky_other. destruct (su_status su); discriminate.
   - intros k Hk. rewrite stat_set_status. apply N.eqb_neq in Hk. rewrite Hk. reflexivity.
+Qed.
+
+(* ====================================================================== *)
+(* D7 repaired: a successful run leaves nothing pending for the tower      *)
+(* ====================================================================== *)
+(* whatever the retrier's in-memory set was: when an attempt of a live retry task returns Ok - the only way the task sets
+   the tower `reachable` - no pending row of the tower is left, every row that was pending has a record, and the Ok arm
+   shows the tower reachable (unless it is flagged) with an empty, stopped retrier *)
+Theorem success_leaves_nothing_pending ops t a :
+  let s := frun f_init ops in
+  In t (f_tasks s) -> snd (run_attempt s t a) = RunOk ->
+  let s1 := fst (run_attempt s t a) in
+  let s' := fst (task_step s1 t RunOk (at_more a)) in
+  (forall l, ~ Prow (c_db (f_c s')) t l) /\ pending_locators (c_db (f_c s')) t = [] /\
+  (forall k x, recorded (c_db (f_c s)) k x -> recorded (c_db (f_c s')) k x) /\
+  snd (task_step s1 t RunOk (at_more a)) = OutDelivered /\ retrier_pending s' t = [] /\
+  (stat (f_c s) t <> Some Misbehaving -> stat (f_c s') t = Some Reachable).
+Proof.
+  intros s Hin Hok s1 s'. pose proof (FInv_frun ops f_init FInv_init) as HF. fold s in HF.
+  assert (Hrun : rstat s t = Some RRunning) by (apply HF, Hin).
+  destruct (run_attempt s t a) as [sx r] eqn:E1. cbn [fst snd] in *. subst r. subst s1.
+  destruct (FInv_run_attempt s t a sx RunOk HF Hrun E1) as [HF1 [Hnp [Hset [K [PA PN]]]]].
+  destruct (Hset eq_refl) as [Hempty Hk1].
+  assert (Edb : c_db (f_c s') = c_db (f_c sx)).
+  { unfold s', task_step. cbn [fst f_c end_task set_tasks]. rewrite f_c_retrier_set_status. cbn [f_c set_c c_db with_retriers]. apply DbInv_set_status. }
+  split; [intros l; rewrite Edb; apply (PN eq_refl l)|]. split.
+  { destruct (pending_locators (c_db (f_c s')) t) as [|x q] eqn:Eq; [reflexivity|]. exfalso.
+    assert (Hx : In x (pending_locators (c_db (f_c s')) t)) by (rewrite Eq; left; reflexivity).
+    apply In_pending_locators in Hx. destruct Hx as [row [A [B C]]]. rewrite Edb in A. apply (PN eq_refl x). exists row. auto. }
+  split; [intros k x H; rewrite Edb; apply K, H|]. split; [reflexivity|]. split.
+  - unfold s', task_step. cbn [fst].
+    change (retrier_pending (end_task (retrier_set_status (set_c sx (with_retriers (wt_set_tower_status (f_c sx) t Reachable) (aremove (c_retriers (wt_set_tower_status (f_c sx) t Reachable)) t))) t RStopped) t) t)
+      with (retrier_pending (retrier_set_status (set_c sx (with_retriers (wt_set_tower_status (f_c sx) t Reachable) (aremove (c_retriers (wt_set_tower_status (f_c sx) t Reachable)) t))) t RStopped) t).
+    unfold retrier_set_status. cbn [f_mgr set_c]. unfold retrier_pending in Hempty.
+    destruct (aget (f_mgr sx) t) as [r1|] eqn:Er1; [rewrite retrier_pending_put, N.eqb_refl; exact Hempty|unfold retrier_pending; cbn [f_mgr set_c]; rewrite Er1; reflexivity].
+  - intros Hnm. assert (Hnm1 : stat (f_c sx) t <> Some Misbehaving).
+    { intros H. apply Hnm. pose proof (run_attempt_mis_back s t a) as Hb. rewrite E1 in Hb. cbn [fst] in Hb. apply Hb, H. }
+    unfold s', task_step. cbn [fst f_c end_task set_tasks]. rewrite f_c_retrier_set_status. cbn [f_c set_c].
+    unfold stat at 1. cbn [c_towers with_retriers]. change (option_map su_status (aget (c_towers (wt_set_tower_status (f_c sx) t Reachable)) t)) with (stat (wt_set_tower_status (f_c sx) t Reachable) t).
+    rewrite stat_set_status, N.eqb_refl. unfold knownc, amem in Hk1. unfold stat in *. destruct (aget (c_towers (f_c sx)) t) as [su1|]; [|discriminate].
+    cbn in *. f_equal. apply sticky_other. congruence.
 Qed.
